@@ -44,9 +44,9 @@ func (*prop) Assumptions() []string {
 }
 func (*prop) MinDistinct(tier string) int64 {
 	if tier == "thorough" {
-		return 1_000_000
+		return 1000000
 	}
-	return 40_000
+	return 40000
 }
 func (*prop) Exhaustive(tier string) bool { return false }
 
